@@ -148,6 +148,23 @@ fn cmd_expand(rest: &str) -> String {
 }
 
 #[cfg(feature = "jeltef_derive_more_verif")]
+fn cmd_comb(rest: &str) -> String {
+    // comb <name> <hex input>  ->  ok <hex rest> <hex consumed> | none | bad-op
+    let mut it = rest.split(' ');
+    let (Some(name), Some(h)) = (it.next(), it.next()) else {
+        return "bad-op".into();
+    };
+    let Some(input) = hex_decode(h) else {
+        return "bad-op".into();
+    };
+    match crate::fmt_parsing::verif_hooks::combinator(name, &input) {
+        None => "bad-op".into(),
+        Some(None) => "none".into(),
+        Some(Some((rest, taken))) => format!("ok {} {}", hex_encode(rest), hex_encode(taken)),
+    }
+}
+
+#[cfg(feature = "jeltef_derive_more_verif")]
 fn cmd_attr(rest: &str) -> String {
     // attr <hex attribute body tokens> <hex fields source: `(A, B)` | `{a: A}` | `;`>
     let mut it = rest.split(' ');
@@ -250,6 +267,8 @@ fn handle(line: &str) -> String {
         "expand" => cmd_expand(rest),
         #[cfg(feature = "jeltef_derive_more_verif")]
         "attr" => cmd_attr(rest),
+        #[cfg(feature = "jeltef_derive_more_verif")]
+        "comb" => cmd_comb(rest.trim()),
         "derives" => crate::dispatch::DERIVES.join(" "),
         "xid" => cmd_xid(rest.trim()),
         "case" => cmd_case(rest.trim()),
